@@ -2061,6 +2061,24 @@ def r_cancel_delegates(prog, rep):
         guards = [n for n in cb.nodes if n.get("k") == "decl" and any("lock_guard" in cb.db_types[v["t"]] or "unique_lock" in cb.db_types[v["t"]] for v in n.get("vars", []))]
         ok = len(guards) == 1
     r.check(ok, "cancelBuild|notify-and-flag-in-one-section", "", "cancelBuild does not notify the delegates and set the flag inside one critical section of %s" % M, cb)
+    # ... and the running jobs are interrupted by *every* cancel call while a queue exists — the flag may already be set by the engine itself (a
+    # database error, a protocol error), and then the client's cancel is the only thing that interrupts the jobs the engine is waiting for
+    caj = cb.calls("ExecutionQueue::cancelAllJobs")
+    if caj:
+        cp = set(cfg.pos_of(cb, c) for c in caj)
+
+        def no_queue(atom, pol):
+            a = atom.replace(".operator bool()", "").replace(".get()", "").replace("this->", "")
+            if a == "executionQueue":
+                return not pol
+            if a in ("(executionQueue == nullptr)", "(nullptr == executionQueue)"):
+                return pol
+            return False
+        w = cfg.path_exists_feasible(cb, cfg.entry_pos(cb), lambda p, e: e == "EXIT", avoid=lambda p, e: p in cp, infeasible=no_queue)
+        r.check(w is None, "cancelBuild|jobs-cancelled-on-every-call", "", "cancelBuild can return without cancelling the queue's jobs although a queue exists (an early return when the "
+                "flag is already set): a build the engine itself marked cancelled then waits for its jobs to end on their own", cb, caj[0])
+    else:
+        r.violation("cancelBuild|jobs-cancelled-on-every-call", "cancelBuild never cancels the execution queue's jobs", cb)
     rm = efn(prog, "removeCancellationDelegate")
     lr = LockSets(rm)
     er = [c for c in rm.calls() if "obj" in c and expr_plain(c.child("obj")) == "cancellationDelegates"]
@@ -2137,3 +2155,25 @@ def r_dfs_pairing(prog, rep):
     rets = [n for n in f.nodes if n.get("k") == "return"]
     r.check(len(rets) == 1 and expr_plain(rets[0].child("e")).strip("()") in ("cycleList", "vector(cycleList)", "std::move(cycleList)") or
             (len(rets) == 1 and "cycleList" in expr_str(rets[0])), "findCycle|returns-path-list", "", "findCycle does not return the path list", f)
+
+
+
+def run_all(prog, rep, skip=()):
+    """Run every engine rule this property's file has not run itself (a rule id already present is not repeated).  Used by the properties whose
+    anchor is the whole engine: almost any misbehaviour of BuildEngine.cpp breaks each of them (a stale result, an extra or missing run with a
+    wrong reason, an outcome that depends on completion order, a stall reported as a cycle)."""
+    import sys
+    mod = sys.modules[__name__]
+    fns = [getattr(mod, n) for n in sorted(dir(mod)) if n.startswith("r_") and callable(getattr(mod, n))]
+    for fn in fns:
+        if fn.__name__ in skip:
+            continue
+        have = set(r.id for r in rep.rules)
+        n0 = len(rep.rules)
+        fn(prog, rep)
+        # drop what this property had already (the function may create more than one rule)
+        keep = rep.rules[:n0]
+        for r in rep.rules[n0:]:
+            if r.id not in have:
+                keep.append(r)
+        rep.rules[:] = keep
